@@ -150,6 +150,7 @@ def walk_under(fn_node, decide):
     evaluated = {}
     exits = []
     _in_flag = []
+    _in_subst = []
     # single-assignment locals bound to a plain attribute chain are aliases: atoms are written in terms of the chain
     counts, vals = {}, {}
     for n in ast.walk(fn_node):
@@ -167,6 +168,9 @@ def walk_under(fn_node, decide):
                 # a local naming a class test (`is_scalar = isinstance(t, ScalarType)`) stands for that test
                 if n.targets[0].id != v.args[0].id:
                     vals[n.targets[0].id] = (text(v), v.args[0].id)
+            elif isinstance(v, ast.Call) and isinstance(v.func, ast.Name) and v.func.id == "type" and len(v.args) == 1 and not v.keywords \
+                    and isinstance(v.args[0], ast.Name) and n.targets[0].id != v.args[0].id:
+                vals[n.targets[0].id] = (text(v), v.args[0].id)        # `kind = type(t)` names the class of t
             elif isinstance(v, ast.Compare) and not any(isinstance(x, ast.Call) for x in ast.walk(v)):
                 # a local naming a side-effect free test (`provided = name in variables`) stands for that test
                 used = [x.id for x in ast.walk(v) if isinstance(x, ast.Name)]
@@ -253,6 +257,26 @@ def walk_under(fn_node, decide):
             v = env[t]
             return [(env, (not v) if neg else v)]
         d = decide(t, env, e) if getattr(decide, "wants_env", False) else decide(t)
+        if d is None and not _in_subst and any(isinstance(x, ast.Name) for x in ast.walk(e)):
+            # the same test over what the locals it mentions hold on this execution, when that is a plain name / attribute chain /
+            # constant (`p = path` ... `if p is None:` is the test `path is None`)
+            penv = {k: v for k, v in path_env(env.get(STMTS, ())).items()
+                    if isinstance(v, (ast.Name, ast.Attribute, ast.Constant)) and not any(isinstance(x, ast.Name) and x.id.startswith("$") for x in ast.walk(v))}
+            if penv and any(isinstance(x, ast.Name) and x.id in penv for x in ast.walk(e)):
+                e2 = path_subst(_clone_expr(e), penv)
+                t2, neg2 = canon(e2)
+                if t2 != t:
+                    if isinstance(e2, ast.Compare) and len(e2.ops) == 1 and isinstance(e2.ops[0], (ast.Is, ast.IsNot)) \
+                            and isinstance(e2.left, ast.Constant) and isinstance(e2.comparators[0], ast.Constant):
+                        same = e2.left.value is e2.comparators[0].value
+                        return [(env, same == isinstance(e2.ops[0], ast.Is))]
+                    _in_subst.append(1)
+                    try:
+                        d2 = decide(t2, env, e2) if getattr(decide, "wants_env", False) else decide(t2)
+                    finally:
+                        _in_subst.pop()
+                    if d2 is not None:
+                        d = (not d2) if (neg2 != neg) else d2
         if d is None and isinstance(e, ast.Compare) and len(e.ops) == 1 and isinstance(e.ops[0], (ast.Is, ast.IsNot)) \
                 and isinstance(e.left, ast.Name) and isinstance(e.comparators[0], ast.Name) and e.comparators[0].id.isupper() \
                 and e.comparators[0].id not in counts and e.left.id not in params:
